@@ -363,7 +363,13 @@ impl ParsedPacket {
     }
 
     pub fn insert_rr_from_string(&mut self, section: Section, rr_str: &str) -> Result<(), Error> {
-        let rr = r#gen::RR::from_string(rr_str)?;
+        let mut rr = r#gen::RR::from_string(rr_str)?;
+        if section == Section::Question {
+            // A question is made of a name, a type and a class only
+            let name_len = Compress::raw_name_len(&rr.packet);
+            rr.packet
+                .truncate(name_len + DNS_RR_QUESTION_HEADER_SIZE);
+        }
         self.insert_rr(section, rr)
     }
 
